@@ -138,9 +138,16 @@ def _extract_one(args):
     root, gendir, unit, flags, key = args
     os.makedirs(CACHE, exist_ok=True)
     out = os.path.join(CACHE, key + ".json")
-    if os.path.exists(out):
-        return unit, out, True
-    tmp = out + ".%d.tmp" % os.getpid()
+    try:
+        # another process may prune the cache at any moment: read now, fall through if the entry vanished
+        with open(out) as f:
+            data = json.load(f)
+        os.utime(out, None)
+        return unit, data, True
+    except (OSError, ValueError):
+        pass
+    import threading
+    tmp = out + ".%d.%d.tmp" % (os.getpid(), threading.get_ident())
     cmd = [OVX, "-o", tmp, os.path.join(root, unit), "--"] + flags
     r = subprocess.run(cmd, stdout=subprocess.PIPE, stderr=subprocess.PIPE)
     if r.returncode != 0 or not os.path.exists(tmp):
@@ -154,10 +161,11 @@ def _extract_one(args):
     text = _read(tmp).decode()
     text = text.replace(gendir.rstrip("/") + "/", "<gen>/")
     text = text.replace(root.rstrip("/") + "/", "")
+    data = json.loads(text)
     with open(tmp, "w") as f:
         f.write(text)
     os.replace(tmp, out)
-    return unit, out, False
+    return unit, data, False
 
 
 def extract(root, extra_flags=(), jobs=16, quiet=True, save_tree=True):
@@ -191,6 +199,10 @@ def extract(root, extra_flags=(), jobs=16, quiet=True, save_tree=True):
             try:
                 with open(pk, "rb") as f:
                     facts = pickle.load(f)
+                try:
+                    os.utime(pk, None)
+                except OSError:
+                    pass
                 info["cache"] = "tree"
                 return facts, info
             except Exception:
@@ -198,10 +210,9 @@ def extract(root, extra_flags=(), jobs=16, quiet=True, save_tree=True):
         facts = {}
         hits = 0
         with concurrent.futures.ThreadPoolExecutor(max_workers=jobs) as ex:
-            for unit, path, hit in ex.map(_extract_one, jobs_args):
+            for unit, data, hit in ex.map(_extract_one, jobs_args):
                 hits += 1 if hit else 0
-                with open(path) as f:
-                    facts[unit] = json.load(f)
+                facts[unit] = data
         info["cache"] = "%d/%d units" % (hits, len(units))
         if not save_tree:
             return facts, info
@@ -216,12 +227,21 @@ def extract(root, extra_flags=(), jobs=16, quiet=True, save_tree=True):
         shutil.rmtree(gendir, ignore_errors=True)
 
 
-def _prune_cache(max_bytes=600 << 20):
+def _prune_cache(max_bytes=1500 << 20, min_age=1800):
+    """Oldest entries first; never an entry younger than min_age seconds (another check running at the same
+    time may be about to read it, or be writing it)."""
+    import time
     try:
         ents = []
+        now = time.time()
         for n in os.listdir(CACHE):
             p = os.path.join(CACHE, n)
-            st = os.stat(p)
+            try:
+                st = os.stat(p)
+            except OSError:
+                continue
+            if now - st.st_mtime < min_age:
+                continue
             ents.append((st.st_mtime, st.st_size, p))
         total = sum(e[1] for e in ents)
         ents.sort()
